@@ -103,3 +103,26 @@ Definition agree (c : case) : bool :=
       end
   | Sub l wm r => run_agree surface_sub wm l r
   end.
+
+(* monomorphic constructors for the generated case files (no implicit arguments to infer: the files
+   elaborate several times faster) *)
+Definition ans (es : list Z) (c : Q) (m : str) (o : okv) : answer Z := mkAnswer es c m o.
+Definition sgl (e : Z) (c : Q) (m : str) (o : okv) : single Z := mkSingle e c m o.
+Definition t_hit (k : Z) (o : okv) (g : Q) (m : str) : Z * (entry + exc) := (k, inl (mkEntry o g m)).
+Definition t_exc (k : Z) (mitx : bool) (c : Z) : Z * (entry + exc) := (k, inr (mitx, c)).
+Definition o_ret (o : okv) (g : Q) (m : str) : obs := ORet (mkEntry o g m).
+Definition mkrun (t : tbl) (c : list (single Z)) (o : obs) : run := (t, c, o).
+Definition r_one (e : Z) : raw_expect Z := ROne e.
+Definition r_many (e : list Z) : raw_expect Z := RMany e.
+Definition r_bare (e : raw_expect Z) : raw_answer Z := RBare e.
+Definition r_dict (e : raw_expect Z) (c : option Q) (m : option str) (o : option raw_ok) : raw_answer Z := RDict e c m o.
+Definition r_tuple (l : list (raw_answer Z)) : raw_answers Z := RTuple l.
+Definition r_single (a : raw_answer Z) : raw_answers Z := RSingle a.
+Definition someq (q : Q) : option Q := Some q.
+Definition somes (s : str) : option str := Some s.
+Definition noq : option Q := None.
+Definition nos : option str := None.
+Definition nook : option raw_ok := None.
+Definition someok (o : raw_ok) : option raw_ok := Some o.
+Definition cfg_some (l : list (answer Z)) : option (list (answer Z)) := Some l.
+Definition cfg_none : option (list (answer Z)) := None.
